@@ -317,6 +317,9 @@ func (c *columnKey) Apply(chunk commit.Chunk, r *commit.Reader) {
 			c.lock.Unlock()
 
 		case commit.Delete:
+			if !fill.Contains(uint32(offset)) {
+				continue // the row holds no key: its stale or zero data must not remove the key of another row
+			}
 			fill.Remove(uint32(offset))
 			c.lock.Lock()
 			delete(c.seek, string(data[offset]))
